@@ -2,6 +2,7 @@ package j5convert
 
 import (
 	"fmt"
+	"github.com/iancoleman/strcase"
 	"strings"
 
 	"github.com/pentops/j5/gen/j5/sourcedef/v1/sourcedef_j5pb"
@@ -172,16 +173,32 @@ func oneofTypeRef(node *sourcewalk.OneofNode) *TypeRef {
 }
 
 func enumTypeRef(node *sourcewalk.EnumNode) *TypeRef {
+	// The names and numbers the enum is converted with (visitEnumNode): the
+	// default prefix, and options numbered by position after UNSPECIFIED. The
+	// source schema carries neither.
+	prefix := node.Schema.Prefix
+	if prefix == "" {
+		prefix = strcase.ToScreamingSnake(node.Schema.Name) + "_"
+	}
 	valMap := make(map[string]int32)
-	for _, value := range node.Schema.Options {
-		valMap[node.Schema.Prefix+value.Name] = value.Number
+	valMap[prefix+"UNSPECIFIED"] = 0
+	options := node.Schema.Options
+	if len(options) > 0 && options[0].Number == 0 && strings.HasSuffix(options[0].Name, "UNSPECIFIED") {
+		options = options[1:]
+	}
+	for idx, value := range options {
+		name := value.Name
+		if !strings.HasPrefix(name, prefix) {
+			name = prefix + name
+		}
+		valMap[name] = int32(idx + 1)
 	}
 	return &TypeRef{
 		Name:     node.NameInPackage(),
 		Position: node.Source.GetPos(),
 
 		EnumRef: &EnumRef{
-			Prefix: node.Schema.Prefix,
+			Prefix: prefix,
 			ValMap: valMap,
 		},
 	}
